@@ -32,6 +32,12 @@ CHECKS = {
         text='All interleavings of launches (fg/bg, 1..3 processes, non-ascending pids), stop/continue/exit/kill events delivered to a foreground wait or to the prompt poll, and fg/bg/jobs/empty-line actions are explored on the real Shell job table, wait_fg_job, try_wait_bg_jobs and handle_sigchld with waitpid answered by a kernel model, in the polling and in the SIGCHLD-handler configuration and with 0/1 deviations inside the non-blocking drain loop; quick completes event budget 3 with <= 4 processes (about 70 k states, 2.3 M transitions), thorough goes on to larger budgets with <= 6 processes. Oracles: smallest-unused unique job ids, wait returns exactly when every process of the job is reported dead or stopped with the last process status, the job list after `jobs` equals the live jobs with the right Stopped/Running state.',
         note='Kernel model validated against the real kernel for prompt-level traces (69+ traces); fg/bg glue is mirrored, not executed (needs a terminal; see C07); the completed event bound is reported in the evidence.',
         ref='DESIGN.md §4 C06, appendix B'),
+    'C10': dict(
+        engine='E1 bounded-exhaustive input sweep (in-process plan) + real binary',
+        technique='bounded-exhaustive enumeration of all words built from reference/literal segments x quote forms x variable environments, planned by the real code against a reference single-pass expander; watchdog for non-termination; conformance replay through the real binary',
+        text='All words of 1..3 segments (thorough: 4, and 5 under the self/mutual/regex environments) over {a - $A ${A} $AB ${AB} $U ${U} $? $$}, unquoted / double-quoted / single-quoted, under nine variable environments (plain, blank, empty, reference to another variable, self-reference in both spellings, mutual reference, $1, regex-special) installed exported and shell-local, are planned by the real code; the argv must equal a reference single-pass expansion (double-quoted: exactly one argument; single-quoted: literal) and every case must terminate. Words of <= 2 segments are also executed by the real binary.',
+        note='Names and values are the bound; word splitting of unquoted results is accepted either way (statement silent).',
+        ref='DESIGN.md §4 C10'),
     'C19': dict(
         engine='E1 bounded-exhaustive input sweep (in-process) + real binary',
         technique='bounded-exhaustive enumeration of all expression trees / all strings over the arithmetic alphabet against an exact reference evaluator (differential oracle, no sampling)',
